@@ -18,6 +18,33 @@ def run(rep, tier, seed, model_ok=True, effort=1):
                 "and shared lines, all line-ending regimes, globbed + repeated entries, v2 and legacy engines: real `bumpver update` then byte comparison with "
                 "the independently computed expectation, `show`, and rfd_from_content correspondence in Coq; non-trivial = distinct project whose update succeeds")
     rwcheck.run_update_projects(rep, tier, seed, "stale", model_ok=model_ok, effort=effort)
+    config_under_glob(rep)
+
+
+def config_under_glob(rep):
+    """A glob entry that covers the config file itself (with a pattern for another line of it) does not stand in for the config's own
+    current_version line: after the update the config says the new version, and a second update starts from it."""
+    from . import impl, project
+    for fmt, glob_key in (("pyproject.toml", "*.toml"), ("bumpver.toml", "*.toml"), ("setup.cfg", "*.cfg")):
+        ext = fmt.rsplit(".", 1)[1]
+        line = 'pkgver = "1.2.3"' if ext == "toml" else "pkgver = 1.2.3"
+        pat = 'pkgver = "{version}"' if ext == "toml" else "pkgver = {version}"
+        prefix = ("[project]\n%s\n\n" if ext == "toml" else "[metadata]\n%s\n\n") % line
+        prj = project.TempProject("MAJOR.MINOR.PATCH", "1.2.3", files={glob_key: [pat]}, contents={"other." + ext: ("[x]\n" + line + "\n")}, fmt=fmt, cfg_prefix=prefix, quote_cfg=False)
+        with prj:
+            err = prj.cfg_error(impl)
+            code, out, logs, exc = prj.run(impl, ["update", "--no-fetch", "--patch"]) if not err else (1, "", [str(err)], None)
+            after = prj.snapshot()
+            c2, o2, _, _ = prj.run(impl, ["show", "--no-fetch"])
+        rep.case(("config-under-glob", fmt), nontrivial=code == 0)
+        cfg_text = after.get(fmt, b"").decode("utf-8", "replace")
+        inp = dict(config_file=fmt, file_patterns={glob_key: [pat]}, exit=code, logs=logs[-3:], config_after=cfg_text[:400], show=o2[-120:])
+        if code != 0:
+            rep.violation("update failed on a project whose config file is also covered by a glob entry", input=inp, **{"class": "unexpected-failure"})
+            continue
+        stale = [l for l in cfg_text.splitlines() if l.startswith("current_version") and "1.2.4" not in l]
+        if stale or "1.2.3" in cfg_text or "1.2.3" in after.get("other." + ext, b"").decode() or "Current Version: 1.2.4" not in o2:
+            rep.violation("an occurrence was left stale: the config file (covered by a glob entry) still shows the old version", input=inp, **{"class": "stale-cfg"})
 
 
 def search(rep, tier, seed, effort=2):
